@@ -3,6 +3,7 @@ import GraafVerif.Proof.ChkGenDfs
 import GraafVerif.Proof.ChkGenDijkstra
 import GraafVerif.Proof.ChkGenBfmFw
 import GraafVerif.Proof.ChkGenRepr
+import GraafVerif.Proof.ChkGen5
 /-!
 # C13 on the SOURCE-REGENERATED definitions (`Model/AlgoGen{,2,3,4}.lean`)
 
@@ -14,10 +15,10 @@ A change of a covered function changes the generated definition, so these proofs
 what the code says NOW (set 1: direct proofs with the calculus of `Proof/ChkGenRt.lean`; sets 2–4:
 transported through the equality theorems of `Thm/AlgoGen{2,3,4}.lean`).
 
-Not regenerated (hand model / tie only, see docs/C13.md): `DistanceMatrix::new`, `AdjacencyMatrix`
-index arithmetic and `ArcsIterator`, `AdjacencyList::{add_arc, out_neighbors, has_walk,
-indegree_sequence, is_tournament}` and its two iterators, `AdjacencyMap::{out_neighbors, has_walk}`;
-and the DROP discipline of `AdjacencyMap::union` (the translator reads `ptr::read` as a copy).
+Every function of graaf that contains an unsafe site is regenerated (sets 1–5).  What the regenerated
+reading cannot see: the DROP discipline of `AdjacencyMap::union` (the translator reads `ptr::read` as a copy),
+more than one schedule of the workers, and — `DistanceMatrix::new` — a `set_len` that precedes the writes is
+accepted as long as nothing uses the vector in between (docs/C13.md §11).
 -/
 namespace GraafVerif.C13Gen
 open GraafVerif GraafVerif.AlgoGen GraafVerif.Repr
@@ -191,6 +192,55 @@ theorem findPartition_noUB (r : Nat) (lhs rhs : List (Nat × List Nat)) : NoUB (
 /-- spatial safety of `AdjacencyMap::union` on the regenerated code, every two maps, every thread count
 (the drop discipline of its `ManuallyDrop` vectors is NOT visible here: `C13.mapUnion_linear_sorted`) -/
 theorem adjMap_union_noUB (ap : Nat) (a b : AdjMap) : NoUB (AlgoGen.AdjacencyMap.union ap a b) := amUnion_noUB ap a b
+
+/-! ## Set 5 — the remaining functions with unchecked accesses -/
+
+/-- The three private iterators: `next` in EVERY state — in particular on every re-poll after `None`. -/
+theorem iterators_next_noUB_any :
+    (∀ s, NoUB (AlgoGen.MxArcsIterator.next s)) ∧ (∀ s, NoUB (AlgoGen.AlArcsIterator.next s)) ∧
+    (∀ s, InNeighborsIterator.Inv s → NoUB (AlgoGen.InNeighborsIterator.next s)) :=
+  ⟨fun s => (MxArcsIterator.next_safe_any s).noUB, fun s => (AlArcsIterator.next_safe_any s).noUB,
+   fun s h => (InNeighborsIterator.next_safe s h).noUB⟩
+
+theorem adjMatrix_arcs_noUB (d : AdjMatrix) : IterSafe (AlgoGen.AdjacencyMatrix.arcsIter d) AlgoGen.MxArcsIterator.next := by
+  refine ⟨?_, fun st _ => (MxArcsIterator.next_safe_any st).noUB⟩
+  rw [AlgoGenThm.AdjacencyMatrix.arcsIter_eq]; exact noUB_ok _
+theorem adjList_arcs_noUB (d : AdjList) : IterSafe (AlgoGen.AdjacencyList.arcsIter d) AlgoGen.AlArcsIterator.next := by
+  refine ⟨?_, fun st _ => (AlArcsIterator.next_safe_any st).noUB⟩
+  rw [AlgoGenThm.AdjacencyList.arcsIter_eq]; exact noUB_ok _
+/-- `in_neighbors(v)`: the raw pointer + `len` of the iterator stay consistent (`len ≤` the slice's length) -/
+theorem adjList_inNeighbors_noUB (d : AdjList) (v : Nat) :
+    IterSafe (AlgoGen.AdjacencyList.inNeighborsIter d v) AlgoGen.InNeighborsIterator.next :=
+  iterSafe_of (P := fun _ => True) InNeighborsIterator.Inv (InNeighborsIterator.new_safe d v)
+    (fun s h => (InNeighborsIterator.next_safe s h).mono (fun r hr => ⟨hr, trivial⟩))
+
+/-- `AdjacencyMatrix::{toggle, add_arc}` for ALL `u`, `v` under the block-count invariant … -/
+theorem adjMatrix_toggle_addArc_noUB (d : AdjMatrix) (u v : Nat) (hlen : d.order * d.order ≤ 64 * d.blocks.length) :
+    NoUB (AlgoGen.AdjacencyMatrix.toggle d u v) ∧ NoUB (AlgoGen.AdjacencyMatrix.addArc d u v) :=
+  ⟨mxToggle_noUB d u v hlen, mxAddArc_noUB d u v hlen⟩
+/-- … which `empty` establishes (every matrix of the public API comes from `empty`; `toggle`, `add_arc`,
+`remove_arc` keep `blocks.len()`) and which is part of `AdjMatrix.WF`. -/
+theorem adjMatrix_blocks_invariant :
+    (∀ n d, AdjMatrix.empty n = some d → d.order * d.order ≤ 64 * d.blocks.length) ∧
+    (∀ d : AdjMatrix, d.WF → d.order * d.order ≤ 64 * d.blocks.length) := ⟨mxEmpty_blocks, mxWF_blocks⟩
+
+theorem adjList_addArc_noUB (d : AdjList) (u v : Nat) : NoUB (AlgoGen.AdjacencyList.addArc d u v) := alAddArc_noUB d u v
+theorem adjList_outNeighbors_noUB (d : AdjList) (u : Nat) : NoUB (AlgoGen.AdjacencyList.outNeighbors d u) := alOutNeighbors_noUB d u
+theorem hasWalk_noUB (w : List Nat) :
+    (∀ d : AdjList, NoUB (AlgoGen.AdjacencyList.hasWalk d w)) ∧ (∀ d : AdjMap, NoUB (AlgoGen.AdjacencyMap.hasWalk d w)) :=
+  ⟨fun d => alHasWalk_noUB d w, fun d => amHasWalk_noUB d w⟩
+theorem adjList_isTournament_noUB (d : AdjList) (hn : 0 < d.order) : NoUB (AlgoGen.AdjacencyList.isTournament d) :=
+  alIsTournament_noUB d hn
+theorem adjMap_outNeighbors_noUB (d : AdjMap) (u : Nat) : NoUB (AlgoGen.AdjacencyMap.outNeighbors d u) := amOutNeighbors_noUB d u
+/-- `DistanceMatrix::new` for EVERY order (raw-buffer reading: capacity, `set_len`, every slot written) and
+the two `IndexMut` impls (checked indexing) -/
+theorem distanceMatrix_noUB (order : Nat) (inf : Int) :
+    NoUB (AlgoGen.DistanceMatrix.new order inf) ∧ ∀ m i, NoUB (AlgoGen.DistanceMatrix.indexMut m i) :=
+  ⟨dmNew_noUB order inf, fun m i => dmIndexMut_noUB m i⟩
+
+/-- a matrix value with too few blocks (not constructible through the public API) -/
+example : AlgoGen.AdjacencyMatrix.addArc ⟨[], 2⟩ 0 1 =
+    .error (.fault (.ub "repr/adjacency_matrix/mod.rs:add_arc:self.blocks.get_unchecked_mut(i >> 6)")) := by decide
 
 /-- **The `join().unwrap_unchecked()` / `lock().unwrap_unchecked()` sites.**  They are UB exactly when a
 worker panicked.  Under the translator's reading (a worker runs to completion at its spawn point; its panic
